@@ -316,6 +316,45 @@ def run(ctx, chk):
                key="memsrc:%d" % k_, detail="" if flag_ else "MEMERROR is reported although creation_failed was not set: the loader refuses the head on "
                "its own (e.g. by looking at the stack depth and the next byte)", path=pa_.block_lines() if not flag_ else None)
     chk.floor("C19.memerror-source", "paths of cbor_load reporting MEMERROR", nmem_, 1)
+    # ... and the converse: a refusal raised by the builder during a decoder step is what cbor_load reports.  After every
+    # decoder step that did not itself fail, creation_failed is consulted before cbor_load reports any other cause (running out
+    # of input, say) or reads on - whatever the order in which the tests are written
+    chk.rule("C19.refusal-first", "after every decoder step that returned FINISHED, cbor_load tests the builder's creation_failed flag before "
+                                  "it reports a failure of its own or decodes on: a head refused at level L+1 is MEMERROR also when it is "
+                                  "the last byte of the input")
+    st_off_ = prog.field_offset("cbor_decoder_result", "status")
+    FIN_ = prog.enum("cbor_decoder_status")["CBOR_DECODER_FINISHED"]
+    nrf_ = 0
+    for k_, pa_ in enumerate(P_.Executor(prog, eff, loop_bound=1, inline=O__.static_callees(prog, eff, "cbor_load")).run("cbor_load")):
+        decs_ = [e for e in pa_.events if e.kind == "call" and e.callee == "cbor_stream_decode"]
+        if not decs_ or pa_.ret != ("c", 0):
+            continue
+        last_ = decs_[-1]
+        ctx_ = last_.args[4] if len(last_.args) > 4 else None
+        after_ = pa_.facts[last_.nfacts:]
+        fin_ = False
+        for t_, tr_, _x in after_:
+            if isinstance(t_, tuple) and t_[0] == "icmp" and t_[1] == "eq" and isinstance(t_[2], tuple) and t_[2][0] == "ld" and t_[2][2] == st_off_ and P_.is_const(t_[3]):
+                if t_[3][1] == FIN_ and tr_:
+                    fin_ = True
+            elif isinstance(t_, tuple) and t_[0] in ("in",) and isinstance(t_[1], tuple) and t_[1][0] == "ld" and t_[1][2] == st_off_ and tr_ and tuple(t_[2]) == (FIN_,):
+                fin_ = True
+        if not fin_:
+            # status known by exclusion (NEDATA and ERROR tested false)
+            ex_ = {t_[3][1] for t_, tr_, _x in after_ if isinstance(t_, tuple) and t_[0] == "icmp" and t_[1] == "eq" and isinstance(t_[2], tuple)
+                   and t_[2][0] == "ld" and t_[2][2] == st_off_ and P_.is_const(t_[3]) and not tr_}
+            fin_ = ex_ >= (set(prog.enum("cbor_decoder_status").values()) - {FIN_})
+        if not fin_:
+            continue
+        nrf_ += 1
+        tested_ = any(isinstance(t_, tuple) and t_[0] == "ld" and t_[1] == ctx_ and t_[2] == cf_off_ for t_, _tr, _x in after_) or \
+            any(isinstance(t_, tuple) and t_[0] in ("icmp",) and any(isinstance(x_, tuple) and x_[0] == "ld" and x_[1] == ctx_ and x_[2] == cf_off_
+                                                                     for x_ in t_[2:4]) for t_, _tr, _x in after_)
+        chk.ob("C19.refusal-first", "cbor_load path %d: creation_failed is consulted after the last successful decoder step" % k_, tested_,
+               last_.ins.loc(), fn=lf_.name, key="refusalfirst:%d" % k_,
+               detail="" if tested_ else "fails after a FINISHED step without having looked at creation_failed: a builder refusal (MEMERROR) is "
+                                         "reported as something else", path=pa_.block_lines() if not tested_ else None)
+    chk.floor("C19.refusal-first", "failing paths of cbor_load after a FINISHED step", nrf_, 2)
     chk.rule("C19.copy-total", "copying a decoded tree completes: cbor_copy (helpers included) returns NULL only where a callee that "
                                "can fail has failed - never because of how deep the tree is (shared with C11.total)")
     chk.rule("C19.serialize-total", "serializing a decoded tree completes: a serializer returns 0 only where a nested encoder/serializer "
@@ -341,6 +380,13 @@ def run(ctx, chk):
              "store addresses a block after it was handed to the installed free, and no block is handed to it twice (unwinding at the nesting limit does not walk through released records)")
     from props.c06 import check_no_access_after_free
     check_no_access_after_free(chk, "C19.no-access-after-free", prog, eff)
+    chk.rule("C19.attach", "a chunk callback hands its chunk to the parent as an ordinary item only on paths that know no indefinite string is "
+             "open - also when that string sits in the deepest permitted frame (shared with C02.attach)")
+    from props.c02 import check_plain_when, wired_builders
+    import typestate as _tsW
+    _Hw, _PAw, _IFw, _xw = ctx.typestate()
+    _cacheW = _Oir.PathCache(prog, eff)
+    check_plain_when(chk, "C19.attach", prog, _cacheW, wired_builders(prog), _tsW.CallSites(prog, eff, _cacheW, _Hw, _PAw))
     chk.rule("C19.automaton", "input nested exactly to the limit loads: every level that completes is closed and handed on, also when all levels close in one cascade (shared with C02.automaton)")
     chk.rule("C19.record-items", "the item of every record unlinked from the decoding stack is released or handed on on that path "
              "(shared with C06.record-items)")
